@@ -153,7 +153,10 @@ def check_spline(case, ctx):
         ctx.skip("ill_conditioned")
     sp = quiet(vd.Spline) if md is None else quiet(vd.Spline, mindist=md_abs)
     d_arg = d
-    if d.size and np.all(d == np.round(d)) and np.all(np.abs(d) < 2.0**53) and vbuild.plain_flag(case):
+    if d.size and vbuild.small_hash(case, 21) % 4 == 0 and len(set(np.round(d).ravel().tolist())) > 1 and np.all(np.abs(d) < 2.0**50):
+        d = np.round(d)  # readings recorded as whole numbers (counts, elevations in metres)
+        d_arg = d
+    if d.size and np.all(d == np.round(d)) and np.all(np.abs(d) < 2.0**53) and vbuild.small_hash(case, 20) % 2 == 0:
         d_arg = d.astype("int64")  # whole-number data handed over with an integer dtype
     stacked = vbuild.maybe_stack((np.asarray(e, dtype="float64"), np.asarray(n, dtype="float64")), vbuild.stack_flag(case))
     if case.get("weighted"):
